@@ -196,9 +196,11 @@ func RunE3(r *Run) {
 		w.open()
 	}
 	faulty := r.Choose("fault-batch", 3) != 0
-	steps := 8 + r.Choose("steps", 25)
+	const steps = 40 // the tape ends the run earlier (op 0)
 	r.Logf("keystore world instances=%d faulty=%v", nInst, faulty)
+	nev := 0
 	for s := 0; s < steps; s++ {
+		nev = s
 		r.T.Mark()
 		op := r.Choose("op", 12)
 		if op == 0 {
@@ -313,5 +315,5 @@ func RunE3(r *Run) {
 		}
 		w.checkAll("after event")
 	}
-	r.Add("events", int64(steps))
+	r.Add("events", int64(nev))
 }
